@@ -1043,14 +1043,24 @@ def mon_C14(walk, d):
                 continue
             ska = int(f.get("s.ska", "0"))
             if before.get("pingto") == "none" and f.get("pingto") != "none":
+                # the answer deadline is armed by the service call that completes the PINGREQ on the wire, and runs from then
                 want = t + min(walk.cfg["pingto"], ska * 500)
-                if int(f["pingto"]) != want:
-                    out.append(("ping-deadline", f"PINGREQ queued at {t} ms with keep alive {ska}s and ping timeout {walk.cfg['pingto']} ms: "
+                c = conn_at(d, i - 1)
+                written_now = c is not None and any(p["kind"] == "pingreq" and p["last_step"] == i - 1 for p in c.packets)
+                if not written_now:
+                    out.append(("ping-deadline", f"a PINGRESP deadline ({f['pingto']} ms) was armed at {t} ms by a service call that did not complete a PINGREQ on the wire", i - 1))
+                elif int(f["pingto"]) != want:
+                    out.append(("ping-deadline", f"PINGREQ written at {t} ms with keep alive {ska}s and ping timeout {walk.cfg['pingto']} ms: "
                                                  f"deadline {f['pingto']} ms, expected {want} ms (half the keep alive, exactly)", i - 1))
-                if ska > 0 and f.get("nping") != str(t + ska * 1000):
-                    out.append(("next-ping", f"next ping at {f.get('nping')}, expected {t + ska * 1000}", i - 1))
                 if ska == 0:
                     out.append(("ping-with-keepalive-zero", "a PINGREQ was scheduled although the negotiated keep alive is 0", i - 1))
+            # a PINGREQ operation appears in this service call: the next ping is K seconds from now
+            if ska > 0 and before is not None:
+                sb, sa = snap_state(walk.out[[j for j in range(i) if walk.notes[j].get("kind") == "snap"][-1]]), snap_state(o)
+                if sb is not None and sa is not None:
+                    new_pings = [x for x, v in sa["ops"].items() if v["kind"] == "pingreq" and x not in sb["ops"]]
+                    if new_pings and f.get("nping") != str(t + ska * 1000):
+                        out.append(("next-ping", f"a PINGREQ was queued at {t} ms: next ping at {f.get('nping')}, expected {t + ska * 1000}", i - 1))
             if ska > 0 and f.get("nping") not in (None, "none") and int(f["nping"]) > t + ska * 1000:
                 out.append(("next-ping-too-late", f"at {t} ms the next PINGREQ is scheduled for {f['nping']} ms, more than the negotiated keep alive "
                                                   f"({ska} s) away: the connection can stay silent longer than the keep alive", i))
@@ -1069,11 +1079,9 @@ def mon_C14(walk, d):
                     resps = [j for j in range(c.open_step, i) if walk.notes[j].get("ack", {}).get("kind") == "pingresp"
                              and resp_fields(walk.out[j])[0].get("res") == "ok"]
                     wire_outstanding = bool(reqs) and (not resps or max(reqs) > max(resps))
-                    ps = snap_state(walk.out[[j for j in range(i) if walk.notes[j].get("kind") == "snap"][-1]])
-                    queued = ps is not None and any(x["kind"] == "pingreq" for x in ps["ops"].values())
-                    if not wire_outstanding and not queued:
+                    if not wire_outstanding:
                         out.append(("live-peer-timed-out", f"keep-alive error at {note['t']} ms on connection {c.index} although no PINGREQ of this "
-                                                           f"connection is unanswered (PINGREQs written at steps {reqs}, PINGRESPs delivered at {resps})", i))
+                                                           f"connection has been sent and is unanswered (PINGREQs written at steps {reqs}, PINGRESPs delivered at {resps})", i))
                 if dl in (None, "none"):
                     # the deadline may have been set by this very call? no: the check precedes the scheduling
                     out.append(("live-peer-timed-out", "keep-alive error without an outstanding PINGREQ", i))
